@@ -482,6 +482,10 @@ impl World for OnceWorld {
         m
     }
 
+    fn word_addrs(&self) -> Vec<usize> {
+        self.cell.as_ref().map(|c| c.__verif_snapshot().addrs).unwrap_or_default()
+    }
+
     fn pending(&self) -> usize {
         self.futs.values().filter(|x| x.polled && !x.done).count()
     }
